@@ -103,6 +103,20 @@ theorem step_good {c : SCfg} (hb : 0 < c.b) (hw : c.w < 65536) {f : Bytes} {s : 
     | fail => exact hfailstep _ h0 hst
   · exact ⟨h, Nat.le_refl _, by simp⟩
 
+/-- the running sender on an ACK inside the window, as one equation -/
+theorem sStep_ack_inwindow (c : SCfg) (s : SState) (n dt : Nat) (hrun : s.status = .running)
+    (hlen : s.win.len = s.win.elems.length) (hin : (n + 65536 - s.bn) % 65536 < s.win.elems.length) :
+    sStep c s (.ack n) dt =
+      (if !(slide { s with since := s.since + dt } n ((n + 65536 - s.bn) % 65536)).filled &&
+          (slide { s with since := s.since + dt } n ((n + 65536 - s.bn) % 65536)).win.isEmpty
+       then ({ (slide { s with since := s.since + dt } n ((n + 65536 - s.bn) % 65536)) with status := .ok }, [])
+       else sOuter c (slide { s with since := s.since + dt } n ((n + 65536 - s.bn) % 65536))) := by
+  obtain ⟨bn, win, filled, retry, since, status, base⟩ := s
+  simp only at hrun hlen hin
+  subst hrun
+  unfold sStep
+  simp only [hlen, hin, ↓reduceIte]
+
 /-- all states and outputs of a run from a state satisfying the invariant -/
 theorem runFrom_good {c : SCfg} (hb : 0 < c.b) (hw : c.w < 65536) {f : Bytes} :
     ∀ (evs : List (SEv × Nat)) (s : SState), SInv c f s →
